@@ -399,7 +399,12 @@ def error_type_table(ctx, rule, depth=2, custom_too=True):
         # plainly and once with an escape is not that case, whichever comes first
         for custom, dup_by_case in (({':--a': 'p', ':--A': 'div'}, True), ({':--A': 'p', ':--a': 'div'}, True), ({':--a': 'p', ':--\\61': 'div'}, False),
                                     ({':--\\61': 'p', ':--a': 'div'}, False), ({':--x-y': 'p', ':--x\\-y': 'div'}, False), ({':--x\\-y': 'p', ':--x-y': 'div'}, False),
-                                    ({':--caf\\e9': 'p', ':--caf\u00e9': 'div'}, False), ({':--a': 'p', ':--b': 'div', ':--\\62': 'i'}, False)):
+                                    ({':--caf\\e9': 'p', ':--caf\u00e9': 'div'}, False), ({':--a': 'p', ':--b': 'div', ':--\\62': 'i'}, False),
+                                    # only ASCII letters are folded: names that coincide under Unicode case folding / upper-casing are different names
+                                    ({':--stra\u00dfe': 'p', ':--strasse': 'div'}, False), ({':--\ufb01x': 'p', ':--fix': 'div'}, False),
+                                    ({':--\u03c3': 'p', ':--\u03c2': 'div'}, False), ({':--\u212aey': 'p', ':--key': 'div'}, False),
+                                    ({':--caf\u00e9': 'p', ':--caf\u00c9': 'div'}, False), ({':--\u0131d': 'p', ':--id': 'div'}, False),
+                                    ({':--ID': 'p', ':--id': 'div'}, True), ({':--caf\u00e9': 'p', ':--CAF\u00e9': 'div'}, True)):
             got = compile_text(ctx, 'p', custom=custom, cache=False)
             n += 1
             kinds[got.raises or 'compiles'] = kinds.get(got.raises or 'compiles', 0) + 1
